@@ -233,6 +233,27 @@ def t_clear(E):
     E.prove(r2._seed == SEED0, 'a new generator starts at the fixed seed')
 
 
+def t_reset_history(E, draws):
+    """History: draw numbers, reset (RUN / CLEAR / NEW call clear()), then RND(0) and RND behave exactly as
+    on a generator that has never been used - no value from before the reset is seen again."""
+    vals = values_env()
+    used = E.new(randomiser.Randomiser, vals)
+    for _ in range(draws):
+        E.call(used.rnd_, [None])
+    E.call(used.clear)
+    fresh = E.new(randomiser.Randomiser, vals)
+    zero = E.new(numbers.Single, None, vals)
+    a = E.call(used.rnd_, [zero])
+    b = E.call(fresh.rnd_, [zero])
+    E.prove(not a.raised and not b.raised, 'never raises')
+    if not a.raised and not b.raised:
+        E.prove(same_bytes(a.value, b.value), 'RND(0) right after a reset is the value of a fresh generator')
+    a = E.call(used.rnd_, [None])
+    b = E.call(fresh.rnd_, [None])
+    if not a.raised and not b.raised:
+        E.prove(same_bytes(a.value, b.value), 'and so is the next RND')
+
+
 def t_randomize_statement(E, kind):
     """RANDOMIZE n hands n to the reseeding unchanged - in its own type, bit for bit (the seed depends on
     the internal bytes of the argument, so a conversion on the way changes the sequence)."""
@@ -267,6 +288,7 @@ TASKS = [
     Task('Randomiser.rnd_(argument conversion)', t_rnd_converts, cases=[{'kind': k} for k in ('int', 'dbl')]),
     Task('Randomiser.reseed', t_reseed, cases=[{'kind': k} for k in ('int', 'sng', 'dbl')]),
     Task('Randomiser.clear', t_clear),
+    Task('draw, reset, RND(0)', t_reset_history, cases=[{'draws': d} for d in (0, 1, 3)]),
 ]
 
 ASSUMPTIONS = [
